@@ -404,3 +404,66 @@ Proof.
     - rewrite <- Et. exact NE. }
   destruct (invoke_cases _ _ _ _ _ _ _ _ H) as [(_ & N)|(req' & X)]; [exfalso; exact (N rs HS)|exact (R req' X)].
 Qed.
+
+(* ---- C03 for a whole invocation ---- *)
+Definition gdefs (defs : list taskdef) : Graph.defs := map (fun d => (td_name d, td_deps d)) defs.
+
+Lemma lookup_find_def defs n : Graph.lookup (gdefs defs) n <> None -> find_def defs n <> None.
+Proof.
+  unfold gdefs, find_def. induction defs as [|d r IH]; cbn [map Graph.lookup find]; [intros H; exfalso; apply H; reflexivity|].
+  rewrite (Nat.eqb_sym n (td_name d)). destruct (Nat.eqb (td_name d) n); [discriminate|exact IH].
+Qed.
+
+Lemma filter_all_true (f : nat -> bool) l : (forall x, In x l -> f x = true) -> filter f l = l.
+Proof.
+  induction l as [|x l IH]; intros H; cbn [filter]; [reflexivity|]. rewrite (H x (or_introl eq_refl)). f_equal. apply IH. intros y Hy. apply H. right. exact Hy.
+Qed.
+
+(* the request an invocation acts on: the names given, or the default task, or the task clean under --clean *)
+Definition effective_request (defs : list taskdef) (f : flags) (req : list name) : list name :=
+  if f_clean f then [clean_name] else match req with [] => [default_name] | _ => req end.
+
+(* C03 at the command line: the tasks an invocation reports (one entry per task, in execution order) are exactly the tasks
+   reachable from the request through task dependencies, each once, every dependency before its dependant; and every task
+   whose commands were started is one of them *)
+Theorem invocation_runs_the_closure pick defs vars s f req s' ob rs :
+  (forall k l, Permutation (pick k l) l) ->
+  invoke pick defs vars s f req = (s', ob) -> ob_stdout ob = SDJson rs ->
+  valid_run (gdefs defs) (effective_request defs f req) (map tr_name rs) /\
+  (forall n, In n (ob_executed ob) -> In n (map tr_name rs)).
+Proof.
+  intros Hpick H HS.
+  assert (R : forall req0, run_req pick defs s f req0 = (s', ob) ->
+              valid_run (gdefs defs) req0 (map tr_name rs) /\ (forall n, In n (ob_executed ob) -> In n (map tr_name rs))).
+  { intros req0. unfold run_req. fold (gdefs defs). destruct (run_order pick (gdefs defs) req0) as [order|e] eqn:Eo; [|intros X; inversion X; subst; discriminate].
+    match goal with |- context [run_i _ _ _ ?o] => set (otasks := o) end.
+    destruct (rr_out DI (run_i (f_force f) (beh_of defs) s otasks)) as [rs0|e] eqn:Er; [|intros X; inversion X; subst; discriminate].
+    intros X. inversion X; subst s' ob. clear X.
+    assert (Hex : forall g a b, ob_executed (run_tasks_obs g a b) = b).
+    { intros g a b0. unfold run_tasks_obs. destruct (report a) as [ms [[[t c] s0]|]]; reflexivity. }
+    rewrite Hex.
+    assert (Ers : rs = map (mk_res defs) rs0).
+    { unfold run_tasks_obs in HS. destruct (report (map (mk_res defs) rs0)) as [ms [[[t c] s0]|]]; cbn [ob_stdout] in HS.
+      - destruct (visible f); discriminate.
+      - destruct (f_json f); [inversion HS; reflexivity|destruct (visible f); discriminate]. }
+    subst rs.
+    assert (Names : map tr_name (map (mk_res defs) rs0) = order).
+    { rewrite map_map. rewrite (map_ext _ r_task) by (intros a; reflexivity).
+      rewrite (run_results_names DI deqb_i None digest_i (f_force f) (beh_of defs) s otasks rs0 Er). unfold otasks. rewrite otasks_names.
+      apply filter_all_true. intros x Hx. pose proof (lookup_find_def defs x (run_order_defined pick Hpick _ _ _ Eo x Hx)) as D.
+      destruct (find_def defs x); [reflexivity|contradiction]. }
+    rewrite Names. split; [exact (run_order_sound pick Hpick _ _ _ Eo)|].
+    intros n Hn. unfold run_i in Hn.
+    rewrite (executed_are_the_unskipped DI deqb_i None digest_i (f_force f) (beh_of defs) s otasks rs0 Er) in Hn.
+    apply in_map_iff in Hn. destruct Hn as (r0 & <- & Hr0). apply filter_In in Hr0. destruct Hr0 as [Hr0 _].
+    rewrite <- Names, map_map. rewrite (map_ext _ r_task) by (intros a; reflexivity). apply (in_map r_task). exact Hr0. }
+  unfold invoke in H. unfold effective_request.
+  destruct (f_quiet f && f_debug f); [inversion H; subst; discriminate|].
+  destruct (f_vars f); [inversion H; subst; cbn in HS; destruct (f_quiet f || f_json f); discriminate|].
+  destruct (f_clean f).
+  { destruct (has_task defs clean_name); [exact (R _ H)|inversion H; subst; cbn in HS; destruct (f_quiet f || f_json f); discriminate]. }
+  destruct (f_show f); [inversion H; subst; cbn in HS; destruct (f_quiet f || f_json f); discriminate|].
+  destruct req as [|r0 req].
+  - destruct (has_task defs default_name); [exact (R _ H)|inversion H; subst; cbn in HS; destruct (f_quiet f || f_json f); discriminate].
+  - exact (R _ H).
+Qed.
